@@ -746,3 +746,58 @@ Proof.
   rewrite Hc, Hs in H. cbn in H.
   split; intro Hk; rewrite Hk in H; inversion H; subst; cbn; rewrite ?Hs, ?Hc; auto.
 Qed.
+
+(* ---------- the property under the W3C reading ---------- *)
+
+(* the calls the property names as changes *)
+Definition is_change (o : op) : bool :=
+  match o with
+  | OAddTrack _ _ | OAddTcvKind _ _ _ | OAddTcvTrack _ _ _ | OCreateDC => true
+  | _ => false
+  end.
+
+Lemma step_change_effect : forall p o p' out fx,
+  is_change o = true -> step p o = (p', out, fx) -> o_status out = "ok" ->
+  fx = fx_one /\ p_sig p' = p_sig p /\ p_closed p' = p_closed p.
+Proof.
+  intros p o p' out fx C H Hok. destruct o; cbn in C; try discriminate; cbn [step] in H.
+  - unfold add_track in H. destruct (p_closed p) eqn:Ec; [inversion H; subst; discriminate|].
+    destruct (add_track_reuse (p_tcvs p) k i); inversion H; subst; cbn; auto.
+  - unfold add_tcv_kind in H. destruct (p_closed p) eqn:Ec; [inversion H; subst; discriminate|].
+    destruct d as [[| | |]|]; inversion H; subst; try discriminate; cbn; auto.
+  - unfold add_tcv_track in H. destruct (p_closed p) eqn:Ec; [inversion H; subst; discriminate|].
+    destruct d as [[| | |]|]; inversion H; subst; try discriminate; cbn; auto.
+  - unfold create_data_channel in H. destruct (p_closed p) eqn:Ec; [inversion H; subst; discriminate|].
+    inversion H; subst; cbn; auto.
+Qed.
+
+(* after a named change in stable state with the flag clear, the handler fires --
+   once -- exactly when the change requires renegotiation (the check is true) *)
+Lemma fires_iff_needed : forall s o sched s' out fs,
+  p_sig (n_pc s) = Stable -> p_closed (n_pc s) = false -> n_flag s = false ->
+  is_change o = true -> nstep s o sched = (s', out, fs) -> o_status out = "ok" ->
+  (check_negotiation_needed (n_pc s') = Ok true -> fs = [the_firing] /\ n_flag s' = true)
+  /\ (check_negotiation_needed (n_pc s') = Ok false -> fs = [] /\ n_flag s' = false).
+Proof.
+  intros s o sched s' out fs Hs Hc Hf C H Hok.
+  pose proof (nstep_pc s o sched) as Hp. rewrite H in Hp. cbn in Hp.
+  unfold nstep in H. destruct (step (n_pc s) o) as [[p' out'] fx] eqn:E. cbn in Hp. subst p'.
+  rewrite drain_spec in H.
+  assert (out' = out).
+  { destruct (fx_triggers fx); [inversion H; auto|].
+    match type of H with (let (_, _) := op1 ?x in _) = _ => destruct (op1 x) end. inversion H; auto. }
+  subst out'.
+  destruct (step_change_effect _ _ _ _ _ C E Hok) as [-> [Hs' Hc']].
+  cbn [fx_triggers fx_one fx_to_stable] in H.
+  unfold op1, nn_op in H. cbn [n_pc n_flag n_panicked] in H.
+  rewrite Hc', Hc, Hs', Hs, Hf in H. cbn in H.
+  split; intro Hk; rewrite Hk in H; inversion H; subst; cbn; rewrite ?Hs', ?Hs, ?Hc', ?Hc; auto.
+Qed.
+
+Lemma no_refire_after_firing : forall s o sched s' out fs h,
+  nstep s o sched = (s', out, fs) -> fs <> [] -> still_needed s' h ->
+  Forall (fun x => x = []) (snd (nrun s' h)).
+Proof.
+  intros s o sched s' out fs h H Hne Hn. apply no_refire; auto.
+  eapply firing_sets_flag; eauto.
+Qed.
